@@ -216,26 +216,17 @@ Proof.
   rewrite Nat.odd_succ, E, removelast_last, last_last. reflexivity.
 Qed.
 
-#[local] Set Default Proof Using "Type".
-
 Section ConvProofs.
   Variable J : Type.
   Variable jprint : J -> bytes.
-  Variable jparse : bytes -> option J.
-  Variable jzero : J.
-  Hypothesis jroundtrip : forall j, jparse (jprint j) = Some j.
 
   Notation fval := (fval J).
   Notation entity := (entity J).
   Notation to_string := (to_string J jprint).
-  Notation of_string := (of_string J jparse).
-  Notation zero_of := (zero_of J jzero).
   Notation field_pairs := (field_pairs J jprint).
   Notation field_dels := (field_dels J jprint).
   Notation exec_args := (exec_args J jprint).
   Notation save := (save J jprint).
-  Notation fetch := (fetch J jparse jzero).
-  Notation from_fields := (from_fields J jparse jzero).
   Notation wf := (wf J).
   Notation val_ok := (val_ok J).
 
@@ -243,33 +234,6 @@ Section ConvProofs.
   Proof.
     induction fs as [|[n v] fs IH]; cbn [Om.field_pairs]; [reflexivity|].
     destruct (to_string v); [cbn [length]; exact IH|exact IH].
-  Qed.
-
-  Lemma bool_str_roundtrip b : bytes_eqb (bool_str b) str_t = b.
-  Proof. destruct b; reflexivity. Qed.
-
-  (** per-value round trip of converter.ValueToString / StringToValue *)
-  Lemma of_to_string v s : val_ok v -> to_string v = Some s -> of_string (kind_of J v) s = Ok v.
-  Proof using jroundtrip.
-    destruct v as [z|x|b|[z|]|[x|]|[b|]|x|ws|ws|j]; cbn [Om.to_string kind_of Om.of_string Om.val_ok]; intros Hv E;
-      try discriminate; injection E as <-.
-    - rewrite (parse_print_Z z Hv). reflexivity.
-    - reflexivity.
-    - rewrite bool_str_roundtrip. reflexivity.
-    - rewrite (parse_print_Z z Hv). reflexivity.
-    - reflexivity.
-    - rewrite bool_str_roundtrip. reflexivity.
-    - reflexivity.
-    - rewrite (to_vector_top_roundtrip 4 ws); [reflexivity|repeat constructor|exact Hv].
-    - rewrite (to_vector_top_roundtrip 8 ws); [reflexivity|repeat constructor|exact Hv].
-    - rewrite jroundtrip. reflexivity.
-  Qed.
-
-  (** a value without string form is the zero value of its kind (a nil pointer) *)
-  Lemma zero_of_none v : to_string v = None -> zero_of (kind_of J v) = v.
-  Proof.
-    destruct v as [z|x|b|[z|]|[x|]|[b|]|x|ws|ws|j]; cbn [Om.to_string kind_of Om.zero_of]; intros E;
-      try discriminate; reflexivity.
   Qed.
 
   (** lookups in the pair list sent to HSET *)
@@ -321,24 +285,6 @@ Section ConvProofs.
       + cbn [mem_bytes]. rewrite (IH ND' n v HIn).
         destruct (bytes_eqb n n') eqn:E; [|reflexivity].
         apply bytes_eqb_eq in E. subst. exfalso. apply Hnotin. apply (in_map fst) in HIn. exact HIn.
-  Qed.
-
-  (** FromHash returns the saved fields when every field reads back as its string form *)
-  Lemma from_fields_roundtrip h : forall fs ks, fields_ok J fs ks = true ->
-    Forall (fun p => val_ok (snd p)) fs ->
-    (forall n v, In (n, v) fs -> hget h n = to_string v) ->
-    from_fields h ks = Ok fs.
-  Proof using jroundtrip.
-    induction fs as [|[n v] fs IH]; intros [|[n' k] ks] Hok Hv Hget; cbn [fields_ok] in Hok; try discriminate; [reflexivity|].
-    apply andb_true_iff in Hok as [Hok Hrest]. apply andb_true_iff in Hok as [Hn Hk].
-    apply bytes_eqb_eq in Hn. subst n'.
-    assert (Ek : kind_of J v = k) by (destruct v, k; cbn in Hk |- *; first [reflexivity|discriminate]).
-    inversion Hv as [|? ? Hv1 Hv2]; subst.
-    cbn [Om.from_fields]. rewrite (Hget n v (or_introl eq_refl)).
-    rewrite (IH ks Hrest Hv2 (fun n0 v0 H => Hget n0 v0 (or_intror H))).
-    destruct (to_string v) eqn:Ev.
-    - rewrite (of_to_string v b Hv1 Ev). reflexivity.
-    - rewrite (zero_of_none v Ev). reflexivity.
   Qed.
 
   (** ---- the script on the arguments Go sends ---- *)
@@ -576,7 +522,7 @@ Section ConvProofs.
         /\ h_fields r = new_hash st (pairs_of_entity e vv) (rev (field_dels (e_fields J e)))
         /\ live now (Some r) = Some r.
     Proof.
-      clear jroundtrip jzero jparse. intros F L. unfold saved_state, after_write.
+      intros F L. unfold saved_state, after_write.
       destruct (e_ext J e =? 0)%Z eqn:E0.
       - eexists; split; [reflexivity|]. split; [reflexivity|].
         cbn [live h_pxat]. destruct st as [r0|]; cbn [old_px].
@@ -588,61 +534,10 @@ Section ConvProofs.
         cbn [live h_pxat]. replace (now <? e_ext J e)%Z with true by lia. rewrite orb_true_r. reflexivity.
     Qed.
 
-    (** ---- round trip ---- *)
-    Lemma fetch_new_hash now' r e vv st : wf sc e ->
-      h_fields r = new_hash st (pairs_of_entity e vv) (rev (field_dels (e_fields J e))) ->
-      live now' (Some r) = Some r ->
-      (match s_ver sc with Some _ => exists z, int64_ok z = true /\ vv = print_Z z | None => vv = [] end) ->
-      exists e', fetch sc now' (Some r) = Ok e' /\ e_key J e' = e_key J e /\ e_fields J e' = e_fields J e
-        /\ (match s_ver sc with Some _ => parse_int64 vv = Some (e_ver J e') | None => e_ver J e' = 0%Z end).
-    Proof using jroundtrip.
-      intros W Hf L Hvv. unfold Om.fetch. rewrite L, Hf. clear Hf L.
-      pose proof (new_hash_nonempty e vv st W) as NE.
-      destruct (new_hash st (pairs_of_entity e vv) (rev (field_dels (e_fields J e)))) as [|p h] eqn:Hh; [congruence|].
-      clear NE. rewrite <- Hh. clear Hh p h.
-      rewrite (new_hash_key e vv st W).
-      rewrite (from_fields_roundtrip _ _ _ (wf_fields _ _ _ W) (wf_vals _ _ _ W)
-                 (fun n v H => new_hash_field e vv st n v W H)).
-      destruct (s_ver sc) as [vn|] eqn:Hv.
-      - assert (Hvn : ver_name sc = vn) by (unfold ver_name; rewrite Hv; reflexivity).
-        rewrite <- Hvn, (new_hash_ver e vv st W).
-        destruct Hvv as (z & Hz & ->). rewrite (parse_print_Z z Hz).
-        eexists; repeat split; reflexivity.
-      - eexists; repeat split; reflexivity.
-    Qed.
-
     Definition ver_in_range (e : entity) : Prop :=
       match s_ver sc with Some _ => lua_ver_ok (e_ver J e) = true | None => True end.
 
-    (** Save then Fetch (any later instant at which the key has not expired) returns the saved
-        entity with the version the save reported *)
-    Theorem roundtrip now now' st0 e st' v' :
-      wf sc e -> ver_in_range e -> ext_future J now e ->
-      save sc now st0 e = (st', SaveOk v') -> live now' st' = st' ->
-      exists e', fetch sc now' st' = Ok e' /\ e_key J e' = e_key J e /\ e_fields J e' = e_fields J e
-                 /\ e_ver J e' = match s_ver sc with Some _ => v' | None => 0%Z end.
-    Proof using jroundtrip.
-      intros W R F S L. unfold ver_in_range in R.
-      destruct (s_ver sc) as [vn|] eqn:Hv.
-      - rewrite (save_versioned now st0 e vn Hv W R) in S.
-        destruct (ver_pass (live now st0) vn (print_Z (e_ver J e))); [|discriminate].
-        injection S as <- <-.
-        destruct (saved_state_live now (live now st0) e (print_Z (e_ver J e + 1)) F (live_idem now st0))
-          as (r & Hr & Hf & _).
-        rewrite Hr in *.
-        destruct (fetch_new_hash now' r e _ _ W Hf L) as (e' & He' & Hk & Hfs & Hver).
-        { rewrite Hv. exists (e_ver J e + 1)%Z. split; [apply lua_ver_ok_int64, R|reflexivity]. }
-        exists e'. repeat split; try assumption.
-        rewrite Hv in Hver. rewrite parse_print_Z in Hver by (apply lua_ver_ok_int64, R). congruence.
-      - rewrite (save_verless now st0 e Hv W) in S. injection S as <- <-.
-        destruct (saved_state_live now (live now st0) e [] F (live_idem now st0)) as (r & Hr & Hf & _).
-        rewrite Hr in *.
-        destruct (fetch_new_hash now' r e _ _ W Hf L) as (e' & He' & Hk & Hfs & Hver).
-        { rewrite Hv. reflexivity. }
-        exists e'. repeat split; try assumption. rewrite Hv in Hver. exact Hver.
-    Qed.
-
-    (** the key is live right after the save, so the theorem above is not vacuous *)
+    (** the key is live right after the save *)
     Lemma save_ok_live now st0 e st' v' :
       wf sc e -> ver_in_range e -> ext_future J now e ->
       save sc now st0 e = (st', SaveOk v') -> live now st' = st' /\ st' <> None.
@@ -686,6 +581,14 @@ Section ConvProofs.
       intros Hv W R. rewrite (save_versioned now st0 e vn Hv W R).
       destruct (ver_pass (live now st0) vn (print_Z (e_ver J e))); [left|right]; reflexivity.
     Qed.
+
+    Section WithParse.
+      Variable jparse : bytes -> option J.
+      Variable jzero : bytes -> J.
+      Notation of_string := (of_string J jparse).
+      Notation zero_of := (zero_of J jzero).
+      Notation fetch := (fetch J jparse jzero).
+      Notation from_fields := (from_fields J jparse jzero).
 
     (** ---- optimistic locking over histories ---- *)
     Notation quiet := (quiet J jprint).
@@ -766,6 +669,108 @@ Section ConvProofs.
         destruct (save_outcomes now st e vn Hv We Re) as [H|H]; rewrite H; auto.
       - rewrite run_fetch_cons. constructor; [exact I|apply IH; assumption].
     Qed.
+
+      Section WithLaw.
+        Hypothesis jroundtrip : forall j, jparse (jprint j) = Some j.
+
+  Lemma bool_str_roundtrip b : bytes_eqb (bool_str b) str_t = b.
+  Proof. destruct b; reflexivity. Qed.
+
+  (** per-value round trip of converter.ValueToString / StringToValue *)
+  Lemma of_to_string v s : val_ok v -> to_string v = Some s -> of_string (kind_of J v) s = Ok v.
+  Proof.
+    destruct v as [z|x|b|[z|]|[x|]|[b|]|x|ws|ws|j]; cbn [Om.to_string kind_of Om.of_string Om.val_ok]; intros Hv E;
+      try discriminate; injection E as <-.
+    - rewrite (parse_print_Z z Hv). reflexivity.
+    - reflexivity.
+    - rewrite bool_str_roundtrip. reflexivity.
+    - rewrite (parse_print_Z z Hv). reflexivity.
+    - reflexivity.
+    - rewrite bool_str_roundtrip. reflexivity.
+    - reflexivity.
+    - rewrite (to_vector_top_roundtrip 4 ws); [reflexivity|repeat constructor|exact Hv].
+    - rewrite (to_vector_top_roundtrip 8 ws); [reflexivity|repeat constructor|exact Hv].
+    - rewrite jroundtrip. reflexivity.
+  Qed.
+
+  (** a value without string form is the zero value of its kind (a nil pointer) *)
+  Lemma zero_of_none n v : to_string v = None -> zero_of n (kind_of J v) = v.
+  Proof.
+    destruct v as [z|x|b|[z|]|[x|]|[b|]|x|ws|ws|j]; cbn [Om.to_string kind_of Om.zero_of]; intros E;
+      try discriminate; reflexivity.
+  Qed.
+
+  (** FromHash returns the saved fields when every field reads back as its string form *)
+  Lemma from_fields_roundtrip h : forall fs ks, fields_ok J fs ks = true ->
+    Forall (fun p => val_ok (snd p)) fs ->
+    (forall n v, In (n, v) fs -> hget h n = to_string v) ->
+    from_fields h ks = Ok fs.
+  Proof.
+    induction fs as [|[n v] fs IH]; intros [|[n' k] ks] Hok Hv Hget; cbn [fields_ok] in Hok; try discriminate; [reflexivity|].
+    apply andb_true_iff in Hok as [Hok Hrest]. apply andb_true_iff in Hok as [Hn Hk].
+    apply bytes_eqb_eq in Hn. subst n'.
+    assert (Ek : kind_of J v = k) by (destruct v, k; cbn in Hk |- *; first [reflexivity|discriminate]).
+    inversion Hv as [|? ? Hv1 Hv2]; subst.
+    cbn [Om.from_fields]. rewrite (Hget n v (or_introl eq_refl)).
+    rewrite (IH ks Hrest Hv2 (fun n0 v0 H => Hget n0 v0 (or_intror H))).
+    destruct (to_string v) eqn:Ev.
+    - rewrite (of_to_string v b Hv1 Ev). reflexivity.
+    - rewrite (zero_of_none n v Ev). reflexivity.
+  Qed.
+
+    (** ---- round trip ---- *)
+    Lemma fetch_new_hash now' r e vv st : wf sc e ->
+      h_fields r = new_hash st (pairs_of_entity e vv) (rev (field_dels (e_fields J e))) ->
+      live now' (Some r) = Some r ->
+      (match s_ver sc with Some _ => exists z, int64_ok z = true /\ vv = print_Z z | None => vv = [] end) ->
+      exists e', fetch sc now' (Some r) = Ok e' /\ e_key J e' = e_key J e /\ e_fields J e' = e_fields J e
+        /\ (match s_ver sc with Some _ => parse_int64 vv = Some (e_ver J e') | None => e_ver J e' = 0%Z end).
+    Proof.
+      intros W Hf L Hvv. unfold Om.fetch. rewrite L, Hf. clear Hf L.
+      pose proof (new_hash_nonempty e vv st W) as NE.
+      destruct (new_hash st (pairs_of_entity e vv) (rev (field_dels (e_fields J e)))) as [|p h] eqn:Hh; [congruence|].
+      clear NE. rewrite <- Hh. clear Hh p h.
+      rewrite (new_hash_key e vv st W).
+      rewrite (from_fields_roundtrip _ _ _ (wf_fields _ _ _ W) (wf_vals _ _ _ W)
+                 (fun n v H => new_hash_field e vv st n v W H)).
+      destruct (s_ver sc) as [vn|] eqn:Hv.
+      - assert (Hvn : ver_name sc = vn) by (unfold ver_name; rewrite Hv; reflexivity).
+        rewrite <- Hvn, (new_hash_ver e vv st W).
+        destruct Hvv as (z & Hz & ->). rewrite (parse_print_Z z Hz).
+        eexists; repeat split; reflexivity.
+      - eexists; repeat split; reflexivity.
+    Qed.
+
+    (** Save then Fetch (any later instant at which the key has not expired) returns the saved
+        entity with the version the save reported *)
+    Theorem roundtrip now now' st0 e st' v' :
+      wf sc e -> ver_in_range e -> ext_future J now e ->
+      save sc now st0 e = (st', SaveOk v') -> live now' st' = st' ->
+      exists e', fetch sc now' st' = Ok e' /\ e_key J e' = e_key J e /\ e_fields J e' = e_fields J e
+                 /\ e_ver J e' = match s_ver sc with Some _ => v' | None => 0%Z end.
+    Proof.
+      intros W R F S L. unfold ver_in_range in R.
+      destruct (s_ver sc) as [vn|] eqn:Hv.
+      - rewrite (save_versioned now st0 e vn Hv W R) in S.
+        destruct (ver_pass (live now st0) vn (print_Z (e_ver J e))); [|discriminate].
+        injection S as <- <-.
+        destruct (saved_state_live now (live now st0) e (print_Z (e_ver J e + 1)) F (live_idem now st0))
+          as (r & Hr & Hf & _).
+        rewrite Hr in *.
+        destruct (fetch_new_hash now' r e _ _ W Hf L) as (e' & He' & Hk & Hfs & Hver).
+        { rewrite Hv. exists (e_ver J e + 1)%Z. split; [apply lua_ver_ok_int64, R|reflexivity]. }
+        exists e'. repeat split; try assumption.
+        rewrite Hv in Hver. rewrite parse_print_Z in Hver by (apply lua_ver_ok_int64, R). congruence.
+      - rewrite (save_verless now st0 e Hv W) in S. injection S as <- <-.
+        destruct (saved_state_live now (live now st0) e [] F (live_idem now st0)) as (r & Hr & Hf & _).
+        rewrite Hr in *.
+        destruct (fetch_new_hash now' r e _ _ W Hf L) as (e' & He' & Hk & Hfs & Hver).
+        { rewrite Hv. reflexivity. }
+        exists e'. repeat split; try assumption. rewrite Hv in Hver. exact Hver.
+    Qed.
+
+      End WithLaw.
+    End WithParse.
   End OneSchema.
 End ConvProofs.
 
